@@ -9,34 +9,41 @@ PROP = dict(
     ],
     bounds="ONE datagram against an NTS source (NTPv4 or NTPv5: the versions an NTS key exchange yields) with a request in flight: arbitrary pending unique id (32 bytes), "
            "origin timestamp / client cookie, deadline and clock; arbitrary stash fill 0..=8, server-requested minimum 4..=17, reach, tries, deny flag, stratum. Datagram = "
-           + _T + "header48 [+draft-id (v5)] + uid field(36) [+ field Y of 16/20 bytes, symbolic type] [+ authenticator field with 16-byte nonce and 0..2 encrypted 16-byte fields of "
-           "symbolic type] [+ trailing field X of 16..28 bytes, symbolic type]; all header bytes symbolic except the version bits; the attacker may copy uid and origin from the request. "
+           + _T + "header48 [+draft-id (v5)] + uid field(36) [+ field Y of 16/20 bytes, cookie (v4) / reference-id response (v5)] [+ authenticator field with 16-byte nonce and 1..2 encrypted 16-byte fields, each a cookie or an unknown field] "
+           "[+ trailing field X of 16..28 bytes, cookie / reference-id response]; header bytes symbolic except byte 0 (leap 0, version, mode server) and, for NTPv5, timescale/flag bytes (flag byte 15 fixed per harness: authnak or synchronized); the attacker may copy uid and origin from the request. "
            "One datagram per pending request suffices: every observable that a datagram can change is part of the arbitrary pre-state.",
     outside="real AES-SIV (ideal-AEAD model, below); datagrams with other field lengths/counts than the templates; version bits other than the source's version (dropped before "
-            "anything else: C12); symbolic field types never equal the NTPv5 draft-identification type (UTF-8 validation; the genuine draft-id field is concrete); "
+            "anything else: C12), leap bits, mode other than server, field kinds other than those listed; the AEAD outcome is fixed per harness (genuine / forged) instead of symbolic; "
+            ""
             "NTS sources in the V4UpgradingToV5/UpgradedToV5 states (an NTS key exchange never yields them)",
     assumptions=[
         "IDEAL AEAD (trusted base): decrypt under s2c succeeds iff the ghost flag says the server really produced exactly this (associated data, nonce, ciphertext) triple - "
-        "identified by its extents in the datagram: AAD = everything before the authenticator field, nonce = its 16 nonce bytes, ciphertext = its ciphertext bytes; any other "
-        "call (other extents, other key, flag unset = forgery) fails. The flag is symbolic, so genuine responses, replays of genuine responses to other requests and forgeries "
-        "with arbitrary content are all covered. Confidentiality is not modelled.",
+        "identified by the lengths of the three slices (AAD = everything before the authenticator field, starting at byte 0; nonce = 16 bytes; ciphertext = the field's ciphertext length) "
+        "plus the first nonce byte and the first and last ciphertext byte; any other call (other lengths/bytes, other key, flag unset = forgery) fails. The flag is fixed per harness (genuine / forged); within 'genuine' the uid/origin are arbitrary, so replays of genuine responses to other requests are covered; "
+        "within 'forged' all content is arbitrary. Confidentiality is not modelled.",
         "'bound to the pending request' = unique-identifier field (in front of the authenticator) equals the pending one AND origin timestamp (v4) / client cookie (v5) equals the pending one",
         "pre-state set through hooks (set_pending etc.); that handle_timer leaves exactly such a state (pending uid = uid on the wire) is checked by c13_poll_struct_*/c13_poll_wire_*",
-        "c07_v5_* (non-kf) exclude the known-defect region: NTPv5, stratum 0, authnak flag, poll byte = 127 or > last poll interval, datagram not (authentic and bound)",
+        "c07_v5_plain_authnak / c07_v5_forged exclude the known-defect region: NTPv5, stratum 0, authnak flag, poll byte = 127 or > last poll interval, datagram not (authentic and bound)",
     ],
     stub_notes=[
         "core::str::from_utf8 / <[u8]>::is_ascii: ASCII-only models (exact at their only call site, decode_draft_identification)",
         "clock: ghost non-decreasing instants (deadline check of the pending request is real code)",
     ],
     harnesses=[
-        H(NH, "c07", "c07_v4_plain", "NTPv4, no authenticator: " + _T + "hdr+uid+X(28). Nothing is accepted, no state change (incl. NTS-NAK and other kiss codes)", timeout=300),
-        H(NH, "c07", "c07_v4_nts", "NTPv4, hdr+uid+Y(16)+authenticator(1 encrypted field)+X(28): effects only if authentic and bound; stored cookies = exactly the encrypted cookie fields; "
-          "cookies in clear (before or after the authenticator) are never stored", timeout=300),
-        H(NH, "c07", "c07_v4_nts2", "NTPv4, hdr+uid+authenticator(2 encrypted fields): cookie order and stash overflow", tier="thorough", timeout=900),
-        H(NH, "c07", "c07_v5_plain", "NTPv5, no authenticator: hdr+draft+uid+X(16); outside the known-defect region", timeout=300),
-        H(NH, "c07", "c07_v5_nts", "NTPv5, hdr+draft+uid+Y(20)+authenticator(1)+X(20): as c07_v4_nts, plus: a Bloom-filter chunk is only taken from an authenticated field", timeout=300),
-        H(NH, "c07", "c07_v5_nts2", "NTPv5, hdr+draft+uid+authenticator(2 encrypted fields)", tier="thorough", timeout=900),
-        H(NH, "c07", "c07_v5_plain_kf_authnak_kiss", "KNOWN DEFECT region: unauthenticated NTPv5 datagram with stratum 0 + authnak flag + poll 127 / > own interval and the (clear-text) "
+        H(NH, "c07", "c07_v4_plain", "NTPv4, no authenticator: hdr+uid+cookie field in clear (28). Nothing is accepted, no state change at all (incl. NTS-NAK and other kiss codes)", timeout=300),
+        H(NH, "c07", "c07_v4_genuine", "NTPv4, hdr+uid+GENUINE authenticator(1 encrypted field: cookie or unknown): effects only if bound to the pending request; "
+          "stored cookies = exactly the encrypted cookie fields (every byte)", timeout=600),
+        H(NH, "c07", "c07_v4_genuine_pre", "NTPv4, hdr+uid+cookie in clear(16)+genuine authenticator(nothing encrypted): the authenticated-but-not-encrypted cookie is never stored", timeout=600),
+        H(NH, "c07", "c07_v4_genuine_post", "NTPv4, hdr+uid+genuine authenticator+cookie in clear(28) behind it: never stored", timeout=600),
+        H(NH, "c07", "c07_v4_forged", "NTPv4, hdr+uid+FORGED authenticator (decrypt fails): nothing accepted, no state change, also with the right uid/origin", timeout=600),
+        H(NH, "c07", "c07_v4_genuine2", "NTPv4, hdr+uid+genuine authenticator(2 encrypted fields): cookie order and stash overflow", tier="thorough", timeout=1200),
+        H(NH, "c07", "c07_v5_plain_authnak", "NTPv5 with the authnak flag, no authenticator: hdr+draft+uid+field(16); outside the known-defect region: no effect", timeout=300),
+        H(NH, "c07", "c07_v5_plain_sync", "NTPv5 without authnak flag, no authenticator: nothing accepted, no state change", timeout=300),
+        H(NH, "c07", "c07_v5_genuine", "NTPv5, hdr+draft+uid+genuine authenticator(1 encrypted field)", tier="thorough", timeout=1200),
+        H(NH, "c07", "c07_v5_genuine_pre", "NTPv5, reference-id response (Bloom chunk) in front of a genuine authenticator: may be used; no cookie stored", tier="thorough", timeout=1200),
+        H(NH, "c07", "c07_v5_genuine_post", "NTPv5, reference-id response behind a genuine authenticator: Bloom filter untouched", tier="thorough", timeout=1200),
+        H(NH, "c07", "c07_v5_forged", "NTPv5 with authnak flag, forged authenticator: nothing accepted, no state change", tier="thorough", timeout=1200),
+        H(NH, "c07", "c07_v5_plain_kf_authnak_kiss", "KNOWN DEFECT region: unauthenticated NTPv5 datagram (hdr+draft+uid) with stratum 0 + authnak flag + poll 127 / > own interval and the (clear-text) "
           "unique id and client cookie of the request: valid_server_response lets it pass (NTS-NAK exception), then the RATE/DENY branches run before the NTS-NAK branch: "
           "poll rate raised or source demobilised without authentication", timeout=300),
     ],
